@@ -772,7 +772,7 @@ theorem prepareWithHistory_switch {d d' : Defects} (h1 : d.roomRowUnchecked = d'
   simp only [checkNewAuths_switch h2]
 
 /-- the candidate has none of the shapes the code does not check (today: the placing references) -/
-def candGuard (_s : RStore) (cand : RoomNode) : Bool := cand.placingOk
+def candGuard (_s : RStore) (cand : RoomNode) : Bool := cand.placingOk && cand.idsDistinct
 
 /-- **C07_partial, as an equation**: on candidates whose placing references are signed by the
     entries' authors with the right label and source entity, the code as written takes exactly the
@@ -780,8 +780,9 @@ def candGuard (_s : RStore) (cand : RoomNode) : Bool := cand.placingOk
 theorem accept_congr {s : RStore} {cand : RoomNode} (g : candGuard s cand = true) :
     accept Defects.asImplemented s cand = accept Defects.none s cand := by
   unfold candGuard at g
+  simp only [Bool.and_eq_true] at g
   unfold accept
-  simp only [g, Bool.not_true, Bool.and_false, Bool.false_eq_true, if_false]
+  simp only [g.1, g.2, Bool.not_true, Bool.and_false, Bool.false_eq_true, if_false]
   have h : ∀ room old, prepareWithHistory Defects.asImplemented room old cand = prepareWithHistory Defects.none room old cand :=
     fun room old => prepareWithHistory_switch (d := Defects.asImplemented) (d' := Defects.none) rfl rfl room old cand
   simp only [h]
@@ -806,7 +807,7 @@ theorem checkNewAuths_congr {room : RoomT} {old l : List AuthNode}
 
 /-- the guard that was needed before /repo 77018f3 -/
 def candGuardBeforeFixes (s : RStore) (cand : RoomNode) : Bool :=
-  cand.placingOk &&
+  cand.placingOk && cand.idsDistinct &&
   match s.rooms.find? (·.id = cand.node.id), readBack false s cand.node.id with
   | some room, some old =>
     (rowEq cand.node old.node ||
@@ -863,12 +864,12 @@ theorem accept_congr_beforeFixes {s : RStore} {cand : RoomNode} (g : candGuardBe
     accept Defects.beforeFixesOldestFirst s cand = accept Defects.none s cand := by
   unfold candGuardBeforeFixes at g
   simp only [Bool.and_eq_true] at g
-  obtain ⟨gp, gm⟩ := g
+  obtain ⟨⟨gp, gi⟩, gm⟩ := g
   have hsw : ∀ room old, prepareWithHistory Defects.beforeFixesOldestFirst room old cand =
       prepareWithHistory Defects.beforeFixes room old cand :=
     fun room old => prepareWithHistory_switch (d := Defects.beforeFixesOldestFirst) (d' := Defects.beforeFixes) rfl rfl room old cand
   unfold accept
-  simp only [gp, Bool.not_true, Bool.and_false, Bool.false_eq_true, if_false, hsw]
+  simp only [gp, gi, Bool.not_true, Bool.and_false, Bool.false_eq_true, if_false, hsw]
   show (if (!cand.sigsOk) = true then _ else if (!cand.consistent) = true then _ else
       match s.rooms.find? (·.id = cand.node.id) with
       | some room => match readBack false s cand.node.id with
@@ -897,7 +898,7 @@ theorem accept_congr_beforeFixes {s : RStore} {cand : RoomNode} (g : candGuardBe
 /-- with the intended checks a candidate is accepted only if every entry is bound to its list by a
     placing reference signed by the entry's author -/
 theorem accept_none_placing {s s' : RStore} {cand : RoomNode} (h : accept Defects.none s cand = .ok s') :
-    cand.sigsOk = true ∧ cand.consistent = true ∧ cand.placingOk = true := by
+    cand.sigsOk = true ∧ cand.consistent = true ∧ cand.placingOk = true ∧ cand.idsDistinct = true := by
   unfold accept at h
   split at h
   · cases h
@@ -908,9 +909,12 @@ theorem accept_none_placing {s s' : RStore} {cand : RoomNode} (h : accept Defect
       split at h
       · cases h
       · next h3 =>
-        simp only [Bool.not_eq_true', Bool.not_eq_false] at h1 h2
-        simp only [Defects.none, Bool.not_false, Bool.true_and, Bool.not_eq_true', Bool.not_eq_false] at h3
-        exact ⟨h1, h2, h3⟩
+        split at h
+        · cases h
+        · next h4 =>
+          simp only [Bool.not_eq_true', Bool.not_eq_false] at h1 h2
+          simp only [Defects.none, Bool.not_false, Bool.true_and, Bool.not_eq_true', Bool.not_eq_false] at h3 h4
+          exact ⟨h1, h2, h3, h4⟩
 
 /-- inversion of `accept` for any setting of the switches -/
 theorem accept_ok {d : Defects} {s s' : RStore} {cand : RoomNode} (h : accept d s cand = .ok s') :
@@ -930,7 +934,9 @@ theorem accept_ok {d : Defects} {s s' : RStore} {cand : RoomNode} (h : accept d 
     · next h2 =>
       split at h
       · cases h
-      · simp only [Bool.not_eq_true', Bool.not_eq_false] at h1 h2
+      · split at h
+        · cases h
+        simp only [Bool.not_eq_true', Bool.not_eq_false] at h1 h2
         refine ⟨h1, h2, ?_⟩
         cases hroom : s.rooms.find? (·.id = cand.node.id) with
         | none =>
